@@ -30,7 +30,7 @@ def run_battery(prop, seed, timeout=400):
             f.write(toml)
         if os.path.exists(os.path.join(repo, 'Cargo.lock')):
             shutil.copy(os.path.join(repo, 'Cargo.lock'), os.path.join(crate, 'Cargo.lock'))
-        env = dict(os.environ, CARGO_NET_OFFLINE='true', CARGO_TARGET_DIR=os.path.join(VERIF, '.cache', 'replay-target'))
+        env = dict(os.environ, CARGO_NET_OFFLINE='true', CARGO_INCREMENTAL='0', CARGO_TARGET_DIR=os.path.join(VERIF, '.cache', 'replay-target'))
         b = subprocess.run(['cargo', 'build', '--offline'], cwd=crate, env=env, stdout=subprocess.PIPE, stderr=subprocess.PIPE, text=True, timeout=timeout)
         if b.returncode != 0:
             res = ([], 'replay driver does not build against this tree: ' + b.stderr[-600:])
